@@ -8,8 +8,11 @@ import (
 	"context"
 	"encoding/hex"
 	"fmt"
+	"github.com/shutter-network/rolling-shutter/rolling-shutter/p2pmsg"
+	"os"
 	"runtime"
 	"strings"
+	"sync"
 
 	pubsub "github.com/libp2p/go-libp2p-pubsub"
 
@@ -40,11 +43,19 @@ func main() {
 		},
 		Prepare: func(env *vlib.Env) (int, error) {
 			nCases = env.Scale(42*6, 42*240)
-			return nCases, nil
+			nConc = env.Scale(8, 64)
+			if os.Getenv("VERIF_FAMILY") == "concurrent" {
+				nCases = 0 // the race-detector pass runs the concurrent family only
+			}
+			return nCases + nConc, nil
 		},
 		RunCase:    runCase,
 		MemLimitMB: 4096,
 		Finalize: func(env *vlib.Env, agg *vlib.Aggregate) {
+			agg.Require("concurrent_validations_during_storage_updates", 10000)
+			if os.Getenv("VERIF_FAMILY") == "concurrent" {
+				return
+			}
 			agg.Require("deliveries", 10000)
 			for _, f := range gossipnet.AllFlavours {
 				agg.Require("handled_"+string(f), 20)
@@ -54,7 +65,69 @@ func main() {
 	})
 }
 
+var nConc int
+
+// concurrentCase: the access node validates keys messages (libp2p runs topic validators on their
+// own goroutines) while its chain-sync loops add keyper sets and eon keys to the shared storage.
+// A crash here is a process-fatal runtime error ("concurrent map read and map write"), which the
+// driver reports as a crash of this case; the thorough tier repeats the family under -race.
+func concurrentCase(env *vlib.Env, idx int, rep *vlib.Reporter) {
+	ctx := context.Background()
+	r := vlib.NewRng(env.Seed, 55, uint64(idx))
+	w := gossipnet.NewWorld(env.Seed+uint64(idx%4), 3, 2)
+	node, err := gossipnet.NewNode(ctx, w, gossipnet.AccessNode, -1, gossipnet.StateMemberSuccess)
+	if err != nil {
+		rep.Inconclusive("node: " + err.Error())
+		return
+	}
+	defer node.Close()
+	ids := gossipnet.MakeIDs(r, gossipnet.Gnosis, 2)
+	good := gossipnet.MustMarshal(w.KeysMsg(gossipnet.Gnosis, ids, gossipnet.FirstSigners(w.T)))
+	bad := w.KeysMsg(gossipnet.Gnosis, ids, gossipnet.FirstSigners(w.T))
+	bad.Eon = 77 // unknown eon: the storage lookup misses
+	badData := gossipnet.MustMarshal(bad)
+	topic := (&p2pmsg.DecryptionKeys{}).Topic()
+	const rounds = 4000
+	var wg sync.WaitGroup
+	ks := w.Keypers.KeyperSet(w.CfgIndex, w.Activation, int32(w.T))
+	wg.Add(1)
+	go func() {
+		defer wg.Done()
+		for i := 0; i < rounds; i++ {
+			node.Storage.AddKeyperSet(uint64(1000+i%64), ks)
+			node.Storage.AddEonKey(uint64(1000+i%64), w.Eon.PublicKey)
+		}
+	}()
+	accepted := 0
+	for g := 0; g < 3; g++ {
+		wg.Add(1)
+		go func(g int) {
+			defer wg.Done()
+			for i := 0; i < rounds/4; i++ {
+				data := good
+				if (i+g)%3 == 0 {
+					data = badData
+				}
+				if node.Validate(ctx, topic, data) == pubsub.ValidationAccept && g == 0 {
+					accepted++
+				}
+			}
+		}(g)
+	}
+	wg.Wait()
+	rep.Obs("concurrent_validations_during_storage_updates", 3*rounds/4)
+	rep.Obs("concurrent_storage_updates", 2*rounds)
+	rep.Eval(fmt.Sprintf("accessnode-concurrent/%d", idx), true)
+	if accepted == 0 {
+		rep.Violationf("concurrent:valid-never-accepted", map[string]any{"case": idx}, "the genuine keys message was never accepted while the storage was being updated")
+	}
+}
+
 func runCase(env *vlib.Env, idx int, rep *vlib.Reporter) {
+	if idx >= nCases {
+		concurrentCase(env, idx-nCases, rep)
+		return
+	}
 	ctx := context.Background()
 	f := gossipnet.AllFlavours[idx%len(gossipnet.AllFlavours)]
 	state := gossipnet.AllDBStates[(idx/len(gossipnet.AllFlavours))%len(gossipnet.AllDBStates)]
